@@ -69,6 +69,10 @@ pub struct NewtonSolveTakesSharedRef;
 /// ```compile_fail,E0616
 /// fn f(n: &mut ohsl::Newton<f64>) { n.max_iter = 3; }
 /// ```
+/// Twin: the setter is the only way in, and it needs `&mut`.
+/// ```no_run
+/// fn f(n: &mut ohsl::Newton<f64>) { n.iterations(3); }
+/// ```
 pub struct NewtonFieldsArePrivate;
 
 /// C16 — the threaded dot product takes both operands by shared reference.
